@@ -19,6 +19,9 @@
  *   CMP v3|v2|exportfail|reloadfail    expected answer "EQ ok"
  *   FIX <same 0|1> <len1> <len2> <first differing offset>        expected answer "FIX ok"
  *   CRASH <status>                     the child died (sanitizer report / abort); expected answer "CRASH none" never matches
+ *   OBJ ...                            object-level stream, see obj_stream()              expected answer "OBJ ok"
+ *   TB / TE / TO / TR / TJ             tree-level stream, see tree_stream()               expected answer "TREE ok" (on TJ)
+ *   TB / TE / TM <mutation> <status>   mutated documents, see mut_stream()                expected answer "TMUT ok" (on TM)
  */
 #include "topology-xml-nolibxml.c"
 #include "dump.h"
@@ -569,6 +572,206 @@ static void obj_stream(hwloc_topology_t t1, hwloc_topology_t t2, const char *xml
   free(o1);
 }
 
+/* ---- tree-level stream (v3, nolibxml export, small topologies): the element tree of the REAL export below the root <object>
+ * (tags, raw attribute bytes of every start tag, text content, nesting), the object tree of the original topology and the object
+ * tree of the reloaded topology, each in document order (memory, normal, I/O, Misc children):
+ *   TB <nobjs>
+ *   TE <depth> <tag hex> <raw attribute bytes hex> <content hex | ->                    one per element of the export
+ *   TO|TR <depth> <kind r|m|n|i|x> <fields as in OBJ> I <n> (<name> <value>)* P <n> (<size> <count>)* U <n> (<name|-> <b64> <data>)*
+ *   TJ                                                                                  expected answer "TREE ok"
+ * The driver builds the model tree from the TO lines: exportTree of it must be the TE tree exactly, it must be TreeValid,
+ * importTree of the TE tree must be normTree of it, and must agree with the TR tree on what the model carries. */
+static int is_blank_c(char c) { return c == ' ' || c == '\t' || c == '\n' || c == '\r'; }
+static int tree_elems(const char *xml, size_t len) {
+  const char *end = xml + len, *p = NULL;
+  for (size_t k = 0; k + 8 <= len; k++) if (!memcmp(xml + k, "<object ", 8)) { p = xml + k; break; }
+  if (!p) return -1;
+  int depth = 0, n = 0;
+  while (p < end && *p == '<') {
+    if (p[1] == '/') {
+      while (p < end && *p != '>') p++;
+      if (p >= end) return -1;
+      p++; depth--;
+      if (depth <= 0) break;
+      while (p < end && is_blank_c(*p)) p++;
+      continue;
+    }
+    const char *t = p + 1, *te = t;
+    while (te < end && ((*te >= 'a' && *te <= 'z') || (*te >= '0' && *te <= '9') || *te == '_')) te++;
+    const char *gt = te; while (gt < end && *gt != '>') gt++;
+    if (gt >= end) return -1;
+    int closed = gt[-1] == '/';
+    const char *ae = closed ? gt - 1 : gt;
+    const char *q = gt + 1, *r = q;
+    int has = 0;
+    if (!closed) {
+      while (r < end && *r != '<') r++;
+      if (r >= end) return -1;
+      if ((size_t) (te - t) == 8 && !memcmp(t, "userdata", 8)) has = 1;          /* get_content takes the exact bytes up to the next tag */
+      else for (const char *z = q; z < r; z++) if (!is_blank_c(*z)) has = 1;
+    }
+    fprintf(fops, "TE %d ", depth); fhex(fops, t, (size_t) (te - t)); fputc(' ', fops); fhex(fops, te, (size_t) (ae - te)); fputc(' ', fops);
+    if (has) fhex(fops, q, (size_t) (r - q)); else fputc('-', fops);
+    fputc('\n', fops); fprintf(fc, ".\n"); n++;
+    if (closed) {
+      if (depth == 0) break;
+      p = q; while (p < end && is_blank_c(*p)) p++;
+    } else { depth++; p = r; }
+  }
+  return n;
+}
+static void tree_objs(const char *op, hwloc_topology_t t, hwloc_obj_t o, int depth, char kind) {
+  hwloc_obj_t c;
+  fprintf(fops, "%s %d %c ", op, depth, kind); obj_fields(fops, t, o);
+  fprintf(fops, " I %u", o->infos.count);
+  for (unsigned i = 0; i < o->infos.count; i++) { fputc(' ', fops); fhexs(fops, o->infos.array[i].name); fputc(' ', fops); fhexs(fops, o->infos.array[i].value); }
+  if (o->type == HWLOC_OBJ_NUMANODE) {
+    fprintf(fops, " P %u", o->attr->numanode.page_types_len);
+    for (unsigned i = 0; i < o->attr->numanode.page_types_len; i++)
+      fprintf(fops, " %llu %llu", (unsigned long long) o->attr->numanode.page_types[i].size, (unsigned long long) o->attr->numanode.page_types[i].count);
+  } else fputs(" P 0", fops);
+  unsigned nu = 0; for (struct ud_entry *e = o->userdata; e; e = e->next) nu++;
+  fprintf(fops, " U %u", nu);
+  for (struct ud_entry *e = o->userdata; e; e = e->next) { fputc(' ', fops); fhexs(fops, e->name); fprintf(fops, " %d ", e->b64 ? 1 : 0); fhex(fops, e->data, e->len); }
+  fputc('\n', fops); fprintf(fc, ".\n");
+  for (c = o->memory_first_child; c; c = c->next_sibling) tree_objs(op, t, c, depth + 1, 'm');
+  for (c = o->first_child; c; c = c->next_sibling) tree_objs(op, t, c, depth + 1, 'n');
+  for (c = o->io_first_child; c; c = c->next_sibling) tree_objs(op, t, c, depth + 1, 'i');
+  for (c = o->misc_first_child; c; c = c->next_sibling) tree_objs(op, t, c, depth + 1, 'x');
+}
+#define TREE_MAX_OBJS 160
+static void tree_stream(hwloc_topology_t t1, hwloc_topology_t t2, const char *xml, size_t len) {
+  recollect(t1);
+  if (nobjs > TREE_MAX_OBJS || len > 400000) return;
+  emit(".", "TB %u", nobjs);
+  tree_elems(xml, len);
+  tree_objs("TO", t1, hwloc_get_root_obj(t1), 0, 'r');
+  tree_objs("TR", t2, hwloc_get_root_obj(t2), 0, 'r');
+  emit("TREE ok", "TJ");
+}
+
+/* ---- mutated documents (v3, nolibxml export, small topologies): the export text is mutated line by line (the nolibxml exporter
+ * writes one start tag / end tag per line) so that the importer's REJECTING paths are driven too: a subtree moved below another
+ * object, a <page_type> / <info> / unknown element inserted before or after the object children, an object retyped.  Each mutated
+ * document is loaded by the real hwloc in a forked grandchild (exit 0 = loaded, 1 = load failed, anything else = died: not
+ * judged) and its element tree is sent to the driver:
+ *   TB 0 ; TE ... ; TM <mutation> <status>        expected answer "TMUT ok"
+ * The driver runs importTree on the element tree: a document the model REJECTS must not be loaded by hwloc (every `reject` of
+ * the model mirrors a `goto error` of hwloc__xml_import_object).  The other direction is not judged (the load can fail later,
+ * in the core). */
+static uint64_t mut_state;
+static unsigned mut_rand(unsigned n) {
+  mut_state ^= mut_state << 13; mut_state ^= mut_state >> 7; mut_state ^= mut_state << 17;
+  return n ? (unsigned) ((mut_state >> 11) % n) : 0;
+}
+struct lvec { char **l; unsigned n, cap; };
+static void lv_insert(struct lvec *v, unsigned at, const char *s) {
+  if (v->n == v->cap) { v->cap = v->cap ? 2 * v->cap : 64; v->l = realloc(v->l, v->cap * sizeof *v->l); }
+  memmove(v->l + at + 1, v->l + at, (v->n - at) * sizeof *v->l); v->l[at] = strdup(s); v->n++;
+}
+static void lv_remove(struct lvec *v, unsigned at) { free(v->l[at]); memmove(v->l + at, v->l + at + 1, (v->n - at - 1) * sizeof *v->l); v->n--; }
+static const char *lv_body(const char *s) { while (*s == ' ') s++; return s; }
+static int lv_is_open(const char *s) { return !strncmp(lv_body(s), "<object ", 8); }
+static int lv_is_selfclosed(const char *s) { size_t n = strlen(s); return n >= 2 && s[n - 2] == '/' && s[n - 1] == '>'; }
+static int lv_is_close(const char *s) { return !strncmp(lv_body(s), "</object>", 9); }
+/* last line of the subtree that starts on line s */
+static unsigned lv_extent(struct lvec *v, unsigned s) {
+  if (lv_is_selfclosed(v->l[s])) return s;
+  int depth = 0;
+  for (unsigned i = s; i < v->n; i++) {
+    if (lv_is_open(v->l[i]) && !lv_is_selfclosed(v->l[i])) depth++;
+    else if (lv_is_close(v->l[i])) { depth--; if (!depth) return i; }
+  }
+  return v->n - 1;
+}
+/* make the object on line t an open/close pair; returns the index of its closing line */
+static unsigned lv_open_up(struct lvec *v, unsigned t) {
+  if (!lv_is_selfclosed(v->l[t])) return lv_extent(v, t);
+  size_t n = strlen(v->l[t]); v->l[t][n - 2] = '>'; v->l[t][n - 1] = 0;
+  lv_insert(v, t + 1, "</object>");
+  return t + 1;
+}
+static unsigned lv_pick_object(struct lvec *v, int allow_root) {
+  unsigned cnt = 0, first = 1;
+  for (unsigned i = 0; i < v->n; i++) if (lv_is_open(v->l[i])) { if (first && !allow_root) { first = 0; continue; } first = 0; cnt++; }
+  if (!cnt) return v->n;
+  unsigned k = mut_rand(cnt); first = 1;
+  for (unsigned i = 0; i < v->n; i++) if (lv_is_open(v->l[i])) { if (first && !allow_root) { first = 0; continue; } first = 0; if (!k--) return i; }
+  return v->n;
+}
+static void noop_import_cb(hwloc_topology_t t, hwloc_obj_t o, const char *name, const void *buffer, size_t len) { (void) t; (void) o; (void) name; (void) buffer; (void) len; }
+static int try_load(const char *buf, size_t len) {
+  fflush(NULL);
+  pid_t p = fork();
+  if (p == 0) {
+    int fd = open("/dev/null", O_WRONLY); if (fd >= 0) { dup2(fd, 2); dup2(fd, 1); }
+    hwloc_topology_t t;
+    if (hwloc_topology_init(&t) < 0) _exit(3);
+    hwloc_topology_set_flags(t, hwloc_topology_get_flags(topo));
+    for (int ty = 0; ty < HWLOC_OBJ_TYPE_MAX; ty++) hwloc_topology_set_type_filter(t, (hwloc_obj_type_t) ty, HWLOC_TYPE_FILTER_KEEP_ALL);
+    hwloc_topology_set_userdata_import_callback(t, noop_import_cb);
+    if (hwloc_topology_set_xmlbuffer(t, buf, (int) len + 1) < 0) _exit(1);
+    _exit(hwloc_topology_load(t) < 0 ? 1 : 0);
+  }
+  int st = 0; waitpid(p, &st, 0);
+  return WIFEXITED(st) && (WEXITSTATUS(st) == 0 || WEXITSTATUS(st) == 1) ? WEXITSTATUS(st) : 2;
+}
+#define MUT_PER_CASE 4
+static void mut_stream(const char *xml, size_t len) {
+  static const char *tynames[] = { "Machine", "Package", "Die", "Core", "PU", "L1Cache", "L2Cache", "L3Cache", "L1iCache", "Group", "NUMANode", "MemCache",
+                                   "Bridge", "PCIDev", "OSDev", "Misc" };
+  if (nobjs > TREE_MAX_OBJS || len > 400000) return;
+  mut_state = 0x9e3779b97f4a7c15ull; for (size_t i = 0; i < len; i++) mut_state = (mut_state ^ (unsigned char) xml[i]) * 0x100000001b3ull;
+  if (!mut_state) mut_state = 1;
+  for (int m = 0; m < MUT_PER_CASE; m++) {
+    struct lvec v = { NULL, 0, 0 };
+    { const char *p = xml, *e = xml + len; while (p < e && *p) { const char *q = memchr(p, '\n', (size_t) (e - p)); size_t n = q ? (size_t) (q - p) : strnlen(p, (size_t) (e - p));
+        char *s = malloc(n + 1); memcpy(s, p, n); s[n] = 0; lv_insert(&v, v.n, s); free(s); if (!q) break; p = q + 1; } }
+    char kind = "abcde"[mut_rand(5)]; int done = 0;
+    if (kind == 'a') {                       /* move a subtree to the end of another object's children */
+      unsigned s = lv_pick_object(&v, 0);
+      if (s < v.n) {
+        unsigned e = lv_extent(&v, s), cnt = e - s + 1;
+        char **sub = malloc(cnt * sizeof *sub);
+        for (unsigned i = 0; i < cnt; i++) sub[i] = strdup(v.l[s + i]);
+        for (unsigned i = 0; i < cnt; i++) lv_remove(&v, s);
+        unsigned t = lv_pick_object(&v, 1);
+        if (t < v.n) { unsigned c = lv_open_up(&v, t); for (unsigned i = 0; i < cnt; i++) lv_insert(&v, c + i, sub[i]); done = 1; }
+        for (unsigned i = 0; i < cnt; i++) free(sub[i]);
+        free(sub);
+      }
+    } else if (kind == 'b' || kind == 'd') { /* a <page_type> / unknown element as first child of an object */
+      unsigned t = lv_pick_object(&v, 1);
+      if (t < v.n) { lv_open_up(&v, t); lv_insert(&v, t + 1, kind == 'b' ? "<page_type size=\"4096\" count=\"1\"/>" : "<foo bar=\"1\"/>"); done = 1; }
+    } else if (kind == 'c') {                /* an <info> after the last child of an object */
+      unsigned t = lv_pick_object(&v, 1);
+      if (t < v.n) { unsigned c = lv_open_up(&v, t); lv_insert(&v, c, "<info name=\"a\" value=\"b\"/>"); done = 1; }
+    } else {                                 /* another type string */
+      unsigned t = lv_pick_object(&v, 1);
+      if (t < v.n) {
+        char *q = strstr(v.l[t], " type=\""), *r = q ? strchr(q + 7, '"') : NULL;
+        if (q && r) {
+          const char *ny = tynames[mut_rand(sizeof tynames / sizeof tynames[0])];
+          char *nl = malloc(strlen(v.l[t]) + 32);
+          sprintf(nl, "%.*s type=\"%s%s", (int) (q - v.l[t]), v.l[t], ny, r);
+          free(v.l[t]); v.l[t] = nl; done = 1;
+        }
+      }
+    }
+    if (done) {
+      char *mb = NULL; size_t ml = 0; FILE *mf = open_memstream(&mb, &ml);
+      for (unsigned i = 0; i < v.n; i++) { fputs(v.l[i], mf); fputc('\n', mf); }
+      fclose(mf);
+      int st = try_load(mb, ml);
+      emit(".", "TB 0");
+      if (tree_elems(mb, ml) > 0) emit("TMUT ok", "TM %c %d", kind, st); else emit(".", "TB 0");
+      free(mb);
+    }
+    for (unsigned i = 0; i < v.n; i++) free(v.l[i]);
+    free(v.l);
+  }
+}
+
 static void roundtrip(char mode, int fmt) {
   unsigned long xflags = fmt == 2 ? HWLOC_TOPOLOGY_EXPORT_XML_FLAG_V2 : 0;
   hwloc_topology_t t2 = NULL;
@@ -598,6 +801,8 @@ static void roundtrip(char mode, int fmt) {
   ev_flush_to_ops(); evf = NULL;
   emit("EQ ok", "CMP v%d", fmt);
   if (fmt == 3 && !cur_export_libxml && !getenv("VERIF_XMLRT_NO_OBJ")) obj_stream(topo, t2, x1, len1);
+  if (fmt == 3 && !cur_export_libxml && !getenv("VERIF_XMLRT_NO_TREE")) tree_stream(topo, t2, x1, len1);
+  if (fmt == 3 && !cur_export_libxml && !getenv("VERIF_XMLRT_NO_TREE") && !getenv("VERIF_XMLRT_NO_MUT")) { recollect(topo); mut_stream(x1, len1); }
   flush2();
   /* hwloc_topology_check() is not called on the reloaded topology: it is equivalent to the original (just judged), and whether
    * the original passes it is C01/C02's business (VERIF_XMLRT_CHECK=1 runs it on both, original first) */
